@@ -114,7 +114,7 @@ PROPS = {
     },
     "C14": {
         "engines": [DECODE, dict(CODEC, args=SMALL)],
-        "text": "Lean 4 theorems C14_unknown_step (a record with an undeclared number is appended byte for byte, in arrival order, to that level's unknown set and nothing else changes), C14_known_never_unknown, C14_reencode_unknown_last, C14_discard (decoding with DiscardUnknown = decoding without, then erasing every unknown set at every depth), together with C03 (unknown sets equal the reference's). Tied on every run by streams with unknown records of every wire type incl. nested groups injected at every level, both flags, compared through the struct view with the model and with real dynamicpb.",
+        "text": "Lean 4 theorems C14_unknown_step (a record with an undeclared number is appended byte for byte, in arrival order, to that level's unknown set and nothing else changes), C14_known_never_unknown, C14_reencode_unknown_last, C14_discard (decoding with DiscardUnknown = decoding without, then erasing every unknown set at every depth), C14_setUnknown_replaces / C14_getUnknown_reads / C14_get_after_set (GetUnknown and SetUnknown read and replace exactly that set, on the generated and on the reference reflection machine), together with C03 (unknown sets equal the reference's). Tied on every run by streams with unknown records of every wire type incl. nested groups injected at every level, both flags, compared through the struct view with the model and with real dynamicpb.",
         "note": "trusted: Lean kernel; correspondence sampling; GetUnknown/SetUnknown are covered by the reflection model (C08)",
         "design": "DESIGN.md §3 C14",
     },
@@ -160,7 +160,8 @@ REQUIRED = {
             "C07_extracted_marshal_returns_own_buffer"],
     "C11": ["C11_reads_write_nothing", "C11_read_history", "C11_interleaving",
             "C11_extracted_read_paths_write_nothing", "C11_extracted_read_paths_share_no_state"],
-    "C14": ["C14_unknown_step", "C14_known_never_unknown", "C14_reencode_unknown_last", "C14_discard"],
+    "C14": ["C14_unknown_step", "C14_known_never_unknown", "C14_reencode_unknown_last", "C14_discard",
+            "C14_setUnknown_replaces", "C14_getUnknown_reads", "C14_get_after_set", "C14_unknown_on_nil"],
     "C08": ["C08_step_refines", "C08_step_state", "C08_step_preserves_wf", "C08_history_refines", "C08_oneof_at_most_one",
             "C08_set_member_replaces", "C08_clear_inactive_member_noop", "C08_range_exactly_populated_once",
             "C08_mutable_view_writes_through"],
